@@ -6,6 +6,8 @@ checks="$@"
 cd /verif
 if ! git -C /repo diff --quiet; then echo "/repo has uncommitted changes; refusing"; exit 2; fi
 if ! git -C /repo apply "$patch"; then echo "patch does not apply"; exit 2; fi
+# evidence/ and replays/ written while a seeded change is applied must not survive: they describe a patched tree
+keep=$(mktemp -d /var/tmp/seedtest.XXXX); cp -a evidence replays $keep/
 caught=""
 for p in $checks; do
   out=$(./check $p $tier 2>&1); code=$?
@@ -15,4 +17,5 @@ for p in $checks; do
   if [ $code -eq 2 ]; then echo "$out" | grep MACHINERY | head -3; fi
 done
 git -C /repo checkout -- .
+rm -rf evidence replays; mv $keep/evidence $keep/replays .; rmdir $keep
 echo "CAUGHT BY:$caught"
